@@ -56,7 +56,18 @@ def cases(draw, ctx, two_d=False):
     n = draw(st.integers(1, 6))
     opl = [draw(ops.op_for(T, reader_only=(kind == "reader"), emu_only=(kind == "emu"))) for _ in range(n)]
     opl = [o for o in opl if o["m"] != "tools.cube"]
+    if kind == "emu" and not two_d and desc["family"] == "4x4" and draw(st.booleans()):
+        # several lines through one accessor expression (f.iline[a:b] consumed at once), on the default layout, where
+        # a line costs the blocks of its group of four: the groups the range touches, each fetched once
+        which = draw(st.sampled_from(["iline_slice", "xline_slice"]))
+        n, step = (T.n_il, desc["il"][1]) if which == "iline_slice" else (T.n_xl, desc["xl"][1])
+        if step > 0 and n >= 2:
+            lo = draw(st.integers(0, n - 2))
+            hi = draw(st.integers(lo + 2, min(n, lo + 9)))
+            opl.insert(draw(st.integers(0, len(opl))), {"m": which, "a": [lo, hi]})
     return {"file": desc, "backend": draw(st.sampled_from(["local", "blob"])), "preload": draw(st.sampled_from([False, False, True])),
+            # the form in which a caller states "preload": the literal, an int, a NumPy bool (np.sum(...) < limit)
+            "preload_as": draw(st.sampled_from(["bool", "bool", "int", "npbool"])),
             "kind": kind, "ops": opl}
 
 
@@ -122,7 +133,8 @@ def run_case(case, ctx):
     sigs = []
     try:
         if case["kind"] == "reader":
-            r = SgzReader(backend, preload=preload)
+            as_given = {"int": int, "npbool": np.bool_}.get(case.get("preload_as"), bool)(preload)
+            r = SgzReader(backend, preload=as_given)
             H = ops.Handles(path, T, reader=r)
         else:
             if case["backend"] == "blob":
